@@ -153,6 +153,17 @@ def worker(job):
                     break
         r2 = attempt(lambda: m.expand(axis, size).merge_axes((axis, axis + 1)))
         multi_equal(r2, bl, D, flags, "merge_axes(expand(m))", problems)
+        # three adjacent axes at once: expand twice, then combine / merge all three
+        if True:
+            bl3 = {}
+            for i, t in enumerate(order):
+                sh = list(bl[t].shape[:nl])
+                sh[axis] = sh[axis] * size
+                bl3[t] = block("q", t, sh, sp, D)
+            m3 = build(bl3)
+            for meth in ("combine_axes", "merge_axes"):
+                r3 = attempt(lambda: getattr(m3.expand(axis, size).expand(axis, size), meth)((axis, axis + 1, axis + 2)))
+                multi_equal(r3, bl3, D, flags, "%s(expand(expand(m)), three axes)" % meth, problems)
     elif pair == "pmap":
         if nl == 0:
             return dict(cfg=cfg, problems=[], skip=True)
